@@ -95,6 +95,7 @@ type Result struct {
 type Rec struct {
 	Focus     string
 	KeepLog   bool
+	violLines []string
 	wallClock bool
 	res       Result
 	logH      hash.Hash
@@ -157,7 +158,13 @@ func (r *Rec) Violate(property, oracle, key, format string, a ...interface{}) {
 	key = strings.ReplaceAll(key, " ", "_")
 	v := Violation{Property: property, Oracle: oracle, Key: key, Detail: fmt.Sprintf(format, a...), Step: r.step}
 	r.res.Violations = append(r.res.Violations, v)
-	r.Logf("VIOLATION %s %s %s: %s", property, oracle, key, v.Detail)
+	// the line goes into the kept log in place, but into the fingerprint as a sorted set at the end: an oracle
+	// that walks a Go map reports the same violations in another order on replay, which is not a difference
+	line := fmt.Sprintf("VIOLATION %s %s %s: %s", property, oracle, key, v.Detail)
+	r.violLines = append(r.violLines, fmt.Sprintf("%d %s", r.step, line))
+	if r.KeepLog {
+		r.res.Log = append(r.res.Log, fmt.Sprintf("[%d] %s", r.step, line))
+	}
 }
 
 func (r *Rec) HasViolation(property string) bool {
@@ -180,6 +187,12 @@ func (r *Rec) MarkWallClockProbe() { r.wallClock = true }
 func (r *Rec) WallClockProbe() bool { return r.wallClock }
 
 func (r *Rec) Finish() *Result {
+	sort.Strings(r.violLines)
+	for _, l := range r.violLines {
+		r.logH.Write([]byte(l))
+		r.logH.Write([]byte{'\n'})
+	}
+	r.violLines = nil
 	r.res.LogHash = hex.EncodeToString(r.logH.Sum(nil)[:16])
 	if r.wallClock {
 		r.res.LogHash = "wall-clock-probe"
